@@ -69,7 +69,7 @@ class C14(Scenario):
     expected_faults = ["reorder", "regroup"]
     expected_probes = ["feature_3d", "time_axis", "explicit_bin_specs", "nan_in_float_column", "bool_axis", "non_range_index",
                        "chunk_keeps_row_labels", "spec_kind_cut", "spec_kind_fraction", "spec_kind_sum", "spec_kind_average", "spec_kind_deviate",
-                       "spec_kind_maximize", "spec_kind_minimize", "spec_kind_bag", "inf_in_float_column", "rowwise_direct_fill"]
+                       "spec_kind_maximize", "spec_kind_minimize", "spec_kind_bag", "inf_in_float_column", "rowwise_direct_fill", "all_nan_column", "duplicate_feature"]
 
     def generate(self, rng, tier, profile):
         big = tier == "thorough"
@@ -82,12 +82,14 @@ class C14(Scenario):
         cols["f3"] = ("float", [enc_val(d.pick([float("inf"), float("inf"), float("-inf")]) if (has_inf and d.chance(0.08)) else
                                         float("nan") if (has_nan3 and d.chance(0.1)) else
                                         d.pick([0.0, 0.5, 1.0, 2.0, 3.0, 4.5, 10.0, -1.0, 0.25, 1.0, 3.0])) for _ in range(n)])
+        # a float column without any finite value (an empty measurement): automatic binning has no range to start from
+        cols["f4"] = ("float", ["nan"] * n if d.chance(0.6) else [enc_val(d.pick([float("nan"), float("nan"), 1.5])) for _ in range(n)])
         cols["i1"] = ("int", [d.randint(-3, 12) for _ in range(n)])
         cols["i2"] = ("int", [d.pick([0, 1, 1, 2, 5, 100]) for _ in range(n)])
         cols["b1"] = ("bool", [d.chance(0.6) for _ in range(n)])
         cols["t1"] = ("ts", [T0 + d.randint(0, 400) * 86400 + d.pick([0, 3600, 86399]) for _ in range(n)])
         t = rng.fork("tree")
-        names = ["f1", "f2", "i1", "i2", "b1", "f3"]
+        names = ["f1", "f2", "i1", "i2", "b1", "f3"] + (["f4"] if t.chance(0.25) else [])
         use_time = t.chance(0.3)
         feats = []
         for _ in range(t.randint(1, 4)):
@@ -99,6 +101,7 @@ class C14(Scenario):
                 f = (["t1"] + f)[:3]
             if f not in feats:
                 feats.append(f)
+        dup = t.chance(0.08)  # the same feature asked for twice is still one histogram, filled once
         binning = t.pick(["auto", "auto", "unit"])
         bin_specs = {}
         explicit = t.chance(0.5)
@@ -144,7 +147,8 @@ class C14(Scenario):
             pend.append(nxt)
             nxt += 1
         steps.append({"op": "final", "obj": pend[0]})
-        return {"cols": {k_: [v[0], v[1]] for k_, v in cols.items()}, "features": [":".join(f) for f in feats], "binning": binning,
+        return {"cols": {k_: [v[0], v[1]] for k_, v in cols.items()}, "features": [":".join(f) for f in feats] + ([":".join(feats[0])] if dup else []),
+                "binning": binning,
                 "bin_specs": bin_specs, "time_axis": "t1" if use_time else "", "steps": steps, "records": [],
                 "index_mode": s.pick([None, None, "offset", "shuffled", "strings"])}
 
@@ -282,7 +286,7 @@ class C14(Scenario):
                 if not df.equals(keep):
                     raise self.violation("make_histograms", "make_histograms", "input-mutated", "the input dataframe was modified", si)
                 frozen = (list(f_r), copy.deepcopy(bs_r), ta_r, dict(vd_r))
-                if sorted(f_r) != sorted(feats):
+                if sorted(set(f_r)) != sorted(set(feats)):
                     raise self.violation("make_histograms", "make_histograms", "content:features",
                                          "requested features %s, returned %s" % (feats, f_r), si)
                 whole_docs = self._docs(hists)
@@ -337,6 +341,10 @@ class C14(Scenario):
                     w.bump("probe_nan_in_float_column")
                 if any("b1" in f for f in f_r):
                     w.bump("probe_bool_axis")
+                if any("f4" in f.split(":") for f in f_r) and all(v == "nan" for v in cols["f4"][1]):
+                    w.bump("probe_all_nan_column")
+                if len(set(feats)) < len(feats):
+                    w.bump("probe_duplicate_feature")
                 for kind_ in ("cut", "fraction", "sum", "average", "deviate", "maximize", "minimize", "bag"):
                     if ("'%s'" % kind_) in repr(bs_r):
                         w.bump("probe_spec_kind_" + kind_)
